@@ -118,6 +118,11 @@ func TestWorker(t *testing.T) {
 		enc.Encode(res)
 	case "minimize":
 		minimize(t, &job, known, enc)
+	case "one":
+		// debugging aid: run case number Start of the plan with its log kept
+		f, idx := locate(planFor(job.Prop, job.Tier, job.Scale), job.Start)
+		res := Execute(t, MakeSpec(job.Prop, f, job.Tier, job.Seed, idx), known, true)
+		enc.Encode(res)
 	case "hashes":
 		// determinism selftest: event hash, step count and outcome per case
 		plan := planFor(job.Prop, job.Tier, job.Scale)
